@@ -848,7 +848,7 @@ pub fn run(ctx: &Ctx, st: &mut Stats) {
             .prop_map(|(interactive, ignored, ops)| HistCase { interactive, ignored, ops })
     });
     // (b) deliveries
-    let cases = ctx.tier.pick(40_000, 2_000_000);
+    let cases = ctx.tier.pick(120_000, 2_000_000);
     DELIVER.run_random(ctx, st, cases, || {
         (
             prop::collection::vec(arb_step(), 2..7),
@@ -859,7 +859,7 @@ pub fn run(ctx: &Ctx, st: &mut Stats) {
             .prop_map(|(steps, raise_at, sched, interactive_pipe)| DeliverCase { steps, raise_at, sched, interactive_pipe })
     });
     // (c) chains
-    let cases = ctx.tier.pick(30_000, 1_500_000);
+    let cases = ctx.tier.pick(90_000, 1_500_000);
     CHAIN.run_random(ctx, st, cases, || {
         (
             prop::collection::vec(arb_cstep(), 1..7),
